@@ -42,6 +42,7 @@ inline int guarded_munmap(void *p, size_t len) {
 
 #include "vf_gen.hpp"
 #include <deque>
+#include <omp.h>
 #include <fstream>
 #include <memory>
 
@@ -120,10 +121,12 @@ void mapped_case(Ctx &c) {
     std::string family;
     std::vector<int> order; // construction order, see below
     bool align = false;
+    int big_threads = 0; // > 0: omp_set_num_threads for this case (cases with >= 2^15 keys)
     if (c.given) {
         d = c.given->vec<K>("keys");
         family = c.given->one_str("family", "spec");
         order = c.given->vec<int>("order");
+        big_threads = c.given->one<int>("threads", 0);
     } else {
         size_t maxn = c.thorough() ? (c.case_idx % 40 == 39 ? (size_t(1) << 18) : 6000) : 3000;
         size_t force_n = 0;
@@ -135,6 +138,29 @@ void mapped_case(Ctx &c) {
         d = gen_mapped_keys<K>(c.rng, Eps, maxn, family, force_n);
         if (force_n) family += "+round_n";
         align = !force_n && c.rng.chance(1, 3);
+        if (c.rng.chance(1, 25)) {
+            // >= 2^15 keys: the index is built by the chunked, multi-threaded builder. n is arbitrary modulo the chunk count,
+            // the last few keys lie far off the trend of the rest, the OpenMP thread count is chosen per case, and a quarter of
+            // these cases create the container through ONE of the two paths only (then reopen it): a process that has so far
+            // built large containers through one path, under another thread count, is part of "every history".
+            size_t n = (size_t(1) << 15) + c.rng.below(6000);
+            d = gen_mapped_keys<K>(c.rng, Eps, n, family, n);
+            using D = UDom<K>;
+            size_t tail = 1 + c.rng.below(25);
+            uint64_t top = D::R - c.rng.below(1000), prev = D::to_u(d[n - tail - 1]);
+            if (top > prev && top - prev > 4 * tail) { // (prev + 4 * tail may wrap: the body often saturates at max-1)
+                uint64_t step = std::max<uint64_t>(1, std::min<uint64_t>((top - prev) / (4 * tail), 1 + c.rng.below(1000)));
+                for (size_t j = 0; j < tail; ++j) d[n - tail + j] = D::to_key(top - (tail - 1 - j) * step);
+            }
+            family = "big_far_tail";
+            align = false;
+            big_threads = 1 + int(c.rng.below(20));
+            switch (c.rng.below(8)) {
+                case 0: order = {0, 2, 4}; break; // range path only
+                case 1: order = {1, 3}; break;    // raw-file path only
+                default: break;
+            }
+        }
     }
     const std::string tag = std::to_string(getpid());
     const std::string fa = "mapped." + tag + ".A", fb = "mapped." + tag + ".B", raw = "mapped." + tag + ".raw";
@@ -177,6 +203,7 @@ void mapped_case(Ctx &c) {
         s.set_one("case", c.case_idx);
         s.set_one("family", family);
         s.set_vec("order", order);
+        s.set_one("threads", big_threads);
         s.set_one("stale", stale_for_dump);
         s.set_one("source", src_for_dump);
         s.set_vec("keys", d);
@@ -212,6 +239,12 @@ void mapped_case(Ctx &c) {
     stale_for_dump = stale;
 
     // ---- construct in the chosen order, all objects stay alive
+    if (big_threads > 0) {
+        omp_set_num_threads(big_threads);
+        c.count("cases_built_by_the_chunked_builder");
+        c.count("chunked_cases_with_" + std::to_string(std::min(big_threads, 20)) + "_threads");
+        if (order.size() < 5) c.count("chunked_cases_through_one_path_only");
+    }
     std::unique_ptr<M> obj[5];
     FileStamp stampA, stampB;
     static const char *names[] = {"from_range", "from_raw_file", "reopen_A", "reopen_B", "reopen_A_again"};
@@ -254,7 +287,7 @@ void mapped_case(Ctx &c) {
         if (obj[0] && stampA.bytes.size() != obj[0]->file_size_in_bytes())
             c.violation("files_differ", J().str("which", "file A is not as long as file_size_in_bytes() says").num("size_A", stampA.bytes.size())
                                             .num("file_size_in_bytes", obj[0]->file_size_in_bytes()).num("n", n).num("preexisting", stale));
-        if (stampA.bytes != stampB.bytes) {
+        if (obj[0] && obj[1] && stampA.bytes != stampB.bytes) {
             size_t i = 0;
             while (i < std::min(stampA.bytes.size(), stampB.bytes.size()) && stampA.bytes[i] == stampB.bytes[i]) ++i;
             c.violation("files_differ", J().num("size_A", stampA.bytes.size()).num("size_B", stampB.bytes.size()).num("first_difference_at_byte", i)
@@ -273,6 +306,12 @@ void mapped_case(Ctx &c) {
 
     // ---- queries
     auto qs = gen_queries(d, c.rng, 1500);
+    if (big_threads > 0) // the top end of a chunk-built container: every one of the last keys and its neighbours
+        for (size_t i = n > 40 ? n - 40 : 0; i < n; ++i) {
+            qs.push_back(d[i]);
+            if (d[i] < key_maxvalid<K>()) qs.push_back(key_succ(d[i]));
+            if (d[i] > KT<K>::lowest()) qs.push_back(key_pred(d[i]));
+        }
     uint64_t judged = 0, absent = 0, long_runs = 0, runs_to_end = 0;
     {
         size_t i = 0;
